@@ -10,7 +10,7 @@ ID = 'C29'
 ENGINE = 'seq'
 TECHNIQUE = 'runtime monitoring: generated create/assign/read histories against a per-instance dictionary model; concurrent reader/writer cases under a deterministic cooperative scheduler (opcode-level yield points), partly enumerated systematically (delay-bounded)'
 RULE = ('generated classes using MetaThreadSafeAttributes (1-4 attributes, optional subclass adding attributes, via the metaclass directly '
-        'or via miros.ThreadSafeAttributes), 2-5 instances created at random points (now and then an instance dies and a new one is created in its place, typically at the recycled address), histories of plain assignment, augmented assignment '
+        'or via miros.ThreadSafeAttributes), 2-5 instances created at random points (now and then an instance dies and a new one is created in its place, typically at the recycled address; some instances are made by copy.copy of another one and must be independent from then on), histories of plain assignment, augmented assignment '
         '(+=, -=, *=) and reads; the statements are real source lines of a generated module (the descriptor inspects its caller\'s source). '
         'After every statement every attribute of every instance is read and compared with a per-instance dictionary model (fresh '
         'instance reads 0). Every fifth case is concurrent: 2-4 instances hold values from disjoint ranges (plus one never-assigned '
@@ -22,7 +22,7 @@ RULE = ('generated classes using MetaThreadSafeAttributes (1-4 attributes, optio
 CASES = {'quick': 1500, 'thorough': 100000}
 BUDGET = {'quick': 150, 'thorough': 600}
 REQUIRE = {'statements': 10000, 'reads_compared': 50000, 'fresh_instance_reads': 2000, 'subclass_cases': 100,
-           'concurrent_runs': 150, 'concurrent_reads_of_foreign_instance': 300, 'switch_inside_descriptor': 100, 'instances_replaced_by_new_ones': 1000, 'systematic_schedules': 500, 'systematic_scenarios_exhausted': 2}
+           'concurrent_runs': 150, 'concurrent_reads_of_foreign_instance': 300, 'switch_inside_descriptor': 100, 'instances_replaced_by_new_ones': 1000, 'instances_made_by_shallow_copy': 500, 'systematic_schedules': 500, 'systematic_scenarios_exhausted': 2}
 ASSUME = ['lost updates / errors / deadlocks on ONE shared instance are C27; the concurrent cases here let only the owner thread write an instance', 'one statement per source line']
 ANNOUNCE_CASES = True
 
@@ -147,7 +147,7 @@ def run_case(ctx, n):
   sub_attrs = ['b%d' % i for i in range(rng.randint(1, 2))] if sub else []
   via = rng.choice(['meta', 'base'])
   ninst = rng.randint(2, 5)
-  lines = ['import gc', 'from miros.thread_safe_attributes import MetaThreadSafeAttributes',
+  lines = ['import gc', 'import copy', 'from miros.thread_safe_attributes import MetaThreadSafeAttributes',
            'from miros.activeobject import ThreadSafeAttributes', '']
   if via == 'meta':
     lines += ['class K(metaclass=MetaThreadSafeAttributes):', '  _attributes = %r' % attrs, '']
@@ -161,6 +161,7 @@ def run_case(ctx, n):
   stmts = []
   created = 0
   replaced = 0
+  copies = 0
   nst = rng.randint(8, 40)
   body = []
   hist = []
@@ -172,6 +173,15 @@ def run_case(ctx, n):
       body.append('  objs[%d] = None; gc.collect(); objs[%d] = %s()' % (i, i, cls))
       hist.append(('create', i, cls))
       replaced += 1
+    elif created >= 1 and created < ninst + 2 and rng.random() < 0.08:
+      # a new instance made by SHALLOW COPY of an existing one (copy.copy, a clone() idiom): it starts with the same values
+      # and is independent from then on
+      i = rng.randrange(created)
+      cls = next(h[2] for h in reversed(hist) if h[0] in ('create', 'copy') and h[1] == i)
+      body.append('  objs[%d] = copy.copy(objs[%d])' % (created, i))
+      hist.append(('copy', created, cls, i))
+      created += 1
+      copies += 1
     elif created < 2 or (created < ninst and rng.random() < 0.25):
       cls = 'S' if (sub and rng.random() < 0.5) else 'K'
       body.append('  objs[%d] = %s()' % (created, cls))
@@ -179,7 +189,7 @@ def run_case(ctx, n):
       created += 1
     else:
       i = rng.randrange(created)
-      cls_i = next(h[2] for h in reversed(hist) if h[0] == 'create' and h[1] == i)
+      cls_i = next(h[2] for h in reversed(hist) if h[0] in ('create', 'copy') and h[1] == i)
       a = rng.choice(attrs + (sub_attrs if cls_i == 'S' else []))
       r = rng.random()
       v = rng.randrange(1, 50)
@@ -210,7 +220,10 @@ def run_case(ctx, n):
     h = hist[k]
     ctx.count('statements')
     ops_used.add(h[0] if h[0] != 'aug' else h[3])
-    if h[0] == 'create':
+    if h[0] == 'copy':
+      cls_of[h[1]] = h[2]
+      model[h[1]] = dict(model[h[3]])
+    elif h[0] == 'create':
       cls_of[h[1]] = h[2]
       model[h[1]] = {a: 0 for a in attrs + (sub_attrs if h[2] == 'S' else [])}
       ctx.count('fresh_instance_reads', len(model[h[1]]))
@@ -241,6 +254,7 @@ def run_case(ctx, n):
   if sub:
     ctx.count('subclass_cases')
   ctx.count('instances_replaced_by_new_ones', replaced)
+  ctx.count('instances_made_by_shallow_copy', copies)
   ctx.distinct((2 if sub else 1, nattr + len(sub_attrs), created, nst, tuple(sorted(ops_used))))
   if state['bad']:
     ctx.violation(state['bad'][0], state['bad'][1], wit)
